@@ -286,6 +286,10 @@ func (t tmpl) job(prop string, depth int) *Job {
 	j := jobOf("VerifEval", []string{prop}, "expr", t.text, "spec", t.spec, "prop", prop, "mode", itoa(t.mode), "depth", itoa(depth), "ints", itoa(countInts(t.text)))
 	// loops over the expression text (lexer, oracle tokenizer) are bounded by its length
 	j.Unwind = 64 + 2*len(t.spec) + 2*len(t.text)
+	// a by-expression key taken from a member of each element needs one more document level
+	if strings.Contains(t.text, "&a") || strings.Contains(t.text, "&b") {
+		j.Params["depth"] = itoa(depth + 1)
+	}
 	if strings.Contains(t.text, "avg(") || strings.Contains(t.text, "sum(") {
 		j.Solver = "cvc5" // sums of doubles: z3 4.8.12 needs >15 s per query, cvc5 ~2 s
 	}
@@ -376,6 +380,9 @@ func familyCore(tier string) []tmpl {
 		out = append(out, buildChain(hParen(l), sField("a")), buildChain(hParen(l), sIndex("?1")), hParen(l))
 		out = append(out, pipe(pipe(l, hField("a")), hField("b")), buildChain(hParen(pipe(l, hCur())), sField("b")))
 	}
+	// two raw strings in one expression (nothing of the first may leak into the second)
+	out = append(out, tmpl{text: "['it\\'s', 'ok']", spec: "(list (raw it's) (raw ok))"}, tmpl{text: "'it\\'s' | 'ok'", spec: "(pipe (raw it's) (raw ok))"},
+		tmpl{text: "{x: 'a\\'', y: '', z: 'b'}", spec: "(hash x (raw a') y (raw \"\") z (raw b))"})
 	// multi-select members see the same current node
 	out = append(out, hList(hCur(), hCur()), hList(buildChain(hField("a"), sField("b")), buildChain(hNone(), sIndex("?1")), hLit("null")),
 		hHash("x", buildChain(hField("a"), sIndex("?1")), "y", hCur()), buildChain(hField("a"), sList(hField("b"), hCur()), sIndex("?1")),
@@ -553,7 +560,14 @@ func familyPrec(tier string) []tmpl {
 		tmpl{text: "a[*].b[]", spec: "(flat (proj (field a) (field b)) (id))"}, tmpl{text: "a[*][0][]", spec: "(flat (proj (field a) (index 0)) (id))"},
 		tmpl{text: " a . b ", spec: "(sub (field a) (field b))"}, tmpl{text: "a\t[ 0 ]\n.\rb", spec: "(sub (sub (field a) (index 0)) (field b))"},
 		tmpl{text: "( ( a ) )", spec: "(field a)"}, tmpl{text: "((a.b))", spec: "(sub (field a) (field b))"},
-		tmpl{text: "(a || b) && c", spec: "(and (or (field a) (field b)) (field c))"}, tmpl{text: "a || (b && c)", spec: "(or (field a) (and (field b) (field c)))"})
+		tmpl{text: "(a || b) && c", spec: "(and (or (field a) (field b)) (field c))"}, tmpl{text: "a || (b && c)", spec: "(or (field a) (and (field b) (field c)))"},
+		// projections in prefix position keep the whole chain as their right-hand side
+		tmpl{text: "[*].b[?c]", spec: "(proj (id) (filter (field b) (field c) (id)))"}, tmpl{text: "a | [*].b[?c]", spec: "(pipe (field a) (proj (id) (filter (field b) (field c) (id))))"},
+		tmpl{text: "[*].b[?c].d", spec: "(proj (id) (filter (field b) (field c) (field d)))"}, tmpl{text: "[].b[?c]", spec: "(flat (id) (filter (field b) (field c) (id)))"},
+		tmpl{text: "[?a].b[?c]", spec: "(filter (id) (field a) (filter (field b) (field c) (id)))"},
+		tmpl{text: "[1:].b[?c]", spec: "(slice (id) 1 _ _ (filter (field b) (field c) (id)))"}, tmpl{text: "a[*][*].b[?c]", spec: "(proj (field a) (proj (id) (filter (field b) (field c) (id))))"},
+		tmpl{text: "[*].b[*].c", spec: "(proj (id) (proj (field b) (field c)))"}, 
+		tmpl{text: "[*].b[0][?c]", spec: "(proj (id) (filter (sub (field b) (index 0)) (field c) (id)))"}, tmpl{text: "(a)[*].b[?c]", spec: "(proj (field a) (filter (field b) (field c) (id)))"})
 	_ = a
 	_ = b
 	return dedupe(out)
